@@ -33,9 +33,46 @@ def token_enum(repo: str) -> dict:
     raise RuntimeError("Token enum not found")
 
 
+BASELINE = os.path.join(os.path.dirname(os.path.dirname(os.path.abspath(__file__))), "baseline_obligations.json")
+
+
+def adapted_contracts(repo: str, contracts: dict) -> tuple:
+    """contracts re-written for functions whose binders were merely renamed since the baseline (engine/alpha.py);
+    -> (contracts, {contract name: renaming})"""
+    import ast
+    import json
+    from . import alpha
+    try:
+        base = json.load(open(BASELINE))
+    except (OSError, ValueError):
+        return contracts, {}
+    trees: dict = {}
+    out, applied = dict(contracts), {}
+    for name, c in contracts.items():
+        rel, qual = name.split(":", 1)
+        b0 = base.get(name) or {}
+        if not b0.get("shape"):
+            continue
+        if rel not in trees:
+            try:
+                trees[rel] = ast.parse(open(os.path.join(repo, rel), encoding="utf-8").read())
+            except (OSError, SyntaxError):
+                trees[rel] = None
+        if trees[rel] is None:
+            continue
+        b, shp = alpha.describe(trees[rel], qual)
+        if b is None or shp != b0["shape"] or b == b0.get("binders"):
+            continue
+        m = alpha.renaming(b0.get("binders"), b)
+        if m:
+            out[name] = alpha.adapt(c, m)
+            applied[name] = m
+    return out, applied
+
+
 def verify_file(repo: str, relpath: str, only=None, timeout_ms: int = 10000, both: bool = False):
     from contracts.shapes import CLASSES, SPEC_FUNCS
-    contracts = load_contracts()
+    contracts, renamed = adapted_contracts(repo, load_contracts())
     src = open(os.path.join(repo, relpath), encoding="utf-8").read()
     te = token_enum(repo)
     out = {}
@@ -56,5 +93,5 @@ def verify_file(repo: str, relpath: str, only=None, timeout_ms: int = 10000, bot
         except RecursionError:
             vcs, err = ex.vcs, "recursion limit in the symbolic executor"
         discharge(vcs, timeout_ms, both)
-        out[name] = {"vcs": vcs, "unsupported": err, "seconds": time.time() - t0, "stats": ex.stats}
+        out[name] = {"vcs": vcs, "unsupported": err, "seconds": time.time() - t0, "stats": ex.stats, "renamed": renamed.get(name)}
     return out
